@@ -1,5 +1,8 @@
-(* Extraction of the runtime model (C02, C10, C11).  ExtrOcamlBasic only. *)
+(* Extraction of the runtime model (C02, C10, C11): the runtime over the
+   calendar queue with the script's (n, t) (Runtime/ModelCq.v), proved equal to
+   the runtime over the event-set specification in Runtime/Compose.v.
+   ExtrOcamlBasic only. *)
 Require Extraction.
 Require Import ExtrOcamlBasic.
-From DesVerif Require Import Runtime.Model.
-Extraction "rt.ml" Runtime.Model.run.
+From DesVerif Require Import Runtime.ModelCq.
+Extraction "rt.ml" Runtime.ModelCq.run.
